@@ -272,10 +272,9 @@ structure Result (α : Type) where
   idx : List (Sub × List Nat × List Nat)
   /-- the subsample table; `none` = a cell no write reached -/
   sub : List (Option α)
-  /-- the zipper's write list, in program order -/
-  writes : List (Nat × α)
 
-def load {α} (o : Opts) (slabs : List (Slab α)) : Except Fault (Result α) :=
+/-- the load, together with the zipper's write list in program order -/
+def loadW {α} (o : Opts) (slabs : List (Slab α)) : Except Fault (Result α × List (Nat × α)) :=
   match masksFor o.masks slabs.length with
   | .error e => .error e
   | .ok mks =>
@@ -285,7 +284,7 @@ def load {α} (o : Opts) (slabs : List (Slab α)) : Except Fault (Result α) :=
   let tbl := kept.flatten
   let nPer := kept.map List.length
   let subs := loadList o
-  if subs = [] then .ok { rows := tbl, nPer := nPer, idx := [], sub := [], writes := [] }
+  if subs = [] then .ok ({ rows := tbl, nPer := nPer, idx := [], sub := [] }, [])
   else
   match newIdx subs tbl 0 with
   | .error e => .error e
@@ -299,10 +298,14 @@ def load {α} (o : Opts) (slabs : List (Slab α)) : Except Fault (Result α) :=
   match zipAll o.rawCol nSub tblZ slabs hfo news with
   | .error e => .error e
   | .ok ws =>
-    .ok { rows := tbl, nPer := nPer,
-          idx := news.map (fun p => (p.1, p.2.dropLast, diff p.2)),
-          sub := applyWrites (List.replicate nSub none) (ws.map (fun w => (w.1, some w.2))),
-          writes := ws }
+    .ok ({ rows := tbl, nPer := nPer,
+           idx := news.map (fun p => (p.1, p.2.dropLast, diff p.2)),
+           sub := applyWrites (List.replicate nSub none) (ws.map (fun w => (w.1, some w.2))) }, ws)
+
+def load {α} (o : Opts) (slabs : List (Slab α)) : Except Fault (Result α) :=
+  match loadW o slabs with
+  | .error e => .error e
+  | .ok p => .ok p.1
 
 /-! ### light-cone layout: one file, stored indices, no rewrite -/
 
@@ -366,11 +369,11 @@ def showIdx (X : Sub) (idx : List (Sub × List Nat × List Nat)) : String :=
 
 def showOpt (o : Option Nat) : String := match o with | some v => toString v | none => "_"
 
-def showResult (r : Except Fault (Result Nat)) : String :=
+def showResult (r : Except Fault (Result Nat × List (Nat × Nat))) : String :=
   match r with
   | .error f => s!"err {f}"
-  | .ok r =>
-    s!"ok nper={showList r.nPer} rows={showList (r.rows.flatMap showRow)} a={showIdx .A r.idx} b={showIdx .B r.idx} sub={showList (r.sub.map showOpt)} widx={showList (r.writes.map (·.1))}"
+  | .ok (r, ws) =>
+    s!"ok nper={showList r.nPer} rows={showList (r.rows.flatMap showRow)} a={showIdx .A r.idx} b={showIdx .B r.idx} sub={showList (r.sub.map showOpt)} widx={showList (ws.map (·.1))}"
 
 /-- requests:
 `load <cleaned> <loadA> <loadB> <rawCol> <nslabs> (<H> <C> <PA> <PB> <CA> <CB> <M>)*` with `H`, `C` flat lists of
@@ -389,7 +392,7 @@ def handle (args : List String) : String :=
           else (ss.mapM (fun p => parseMask? p.2)).map some
         match masks? with
         | some masks =>
-          showResult (load { cleaned := cl, loadA := la, loadB := lb, rawCol := rc, masks := masks } (ss.map (·.1)))
+          showResult (loadW { cleaned := cl, loadA := la, loadB := lb, rawCol := rc, masks := masks } (ss.map (·.1)))
         | none => "bad-op"
       | none => "bad-op"
     | _, _, _, _, _ => "bad-op"
